@@ -83,6 +83,8 @@ impl<'a> Ck<'a> {
         if radix == 10 {
             fopts.push(("comma_caret", ParseFloatOptions::builder().decimal_point(b',').exponent(b'^').build_unchecked()));
         }
+        // lossy: the algorithms that must never reach the slow path
+        fopts.push(("lossy", ParseFloatOptions::builder().exponent(ec).lossy(true).build_unchecked()));
         Ck { c11, rep, fam: Fam::new(rep, fam), g: Guarded::new(8192), slot, fopts, iopts: ParseIntegerOptions::new(), iopts_multi: ParseIntegerOptions::builder().no_multi_digit(false).build().expect("integer options") }
     }
 
@@ -277,6 +279,58 @@ fn long_inputs(d: &FmtDesc) -> Vec<Vec<u8>> {
         u.extend_from_slice(&body);
         v.push(u);
     }
+    // exponent digits followed by a separator and then a byte that is a digit of the mantissa
+    // radix but not necessarily of the exponent radix (or not a digit at all)
+    {
+        let ec: &[u8] = if d.mantissa_radix >= 15 { b"^" } else { b"e" };
+        let m = vkit::big::digit_char(d.mantissa_radix - 1);
+        for exp in [&b"1"[..], b"12", b"-1", b"+12"] {
+            for seps in [1usize, 2] {
+                for tail in [&[m][..], b"1", b"x", b""] {
+                    let mut s = b"1".to_vec();
+                    s.extend_from_slice(ec);
+                    s.extend_from_slice(exp);
+                    s.extend(std::iter::repeat(sep).take(seps));
+                    s.extend_from_slice(tail);
+                    v.push(s.clone());
+                    let mut t = b"1.5".to_vec();
+                    t.extend_from_slice(&s[1..]);
+                    v.push(t);
+                }
+            }
+        }
+    }
+    // exact halfway expansions (and one unit above) of a few floats: inputs that the moderate paths
+    // cannot decide and that have more digits than fit a 64-bit significand
+    if d.mantissa_radix == 10 && d.exponent_base == 10 {
+        for (fm, bits) in [(vkit::float::F64, 0x3ff0000000000000u64), (vkit::float::F64, 0x4340000000000000), (vkit::float::F64, 0x4340000000000001), (vkit::float::F32, 0x3f800000), (vkit::float::F32, 0x4b800000), (vkit::float::F32, 0x4b800001)] {
+            if let Some((ds, q)) = gen::midpoint_expansion(fm, bits, 10) {
+                if ds.len() > 60 {
+                    continue;
+                }
+                for bump in [false, true] {
+                    let mut digits = ds.clone();
+                    if bump {
+                        digits.extend_from_slice(b"0000000001");
+                    } else {
+                        digits.extend_from_slice(b"0000000000");
+                    }
+                    let k = (-(q - 10)).max(0) as usize; // fraction digits
+                    let mut s: Vec<u8> = Vec::new();
+                    if digits.len() > k {
+                        s.extend_from_slice(&digits[..digits.len() - k]);
+                        s.push(b'.');
+                        s.extend_from_slice(&digits[digits.len() - k..]);
+                    } else {
+                        s.extend_from_slice(b"0.");
+                        s.extend(std::iter::repeat(b'0').take(k - digits.len()));
+                        s.extend_from_slice(&digits);
+                    }
+                    v.push(s);
+                }
+            }
+        }
+    }
     // very long digit strings (big-integer paths) and their separator variants
     for n in [400usize, 800, 1200] {
         let mut s = vec![b'1'; n];
@@ -436,7 +490,7 @@ fn run(rep: &Report, cli: &Cli, c11: bool) {
             c.check_fmt(f, &s);
         }
         c.done();
-        if f.desc.mantissa_radix <= 18 {
+        {
             let mut c = Ck::new(c11, rep, &format!("{prop}:SPEC"), tid, f.desc.mantissa_radix);
             for s in special_inputs(&f.desc) {
                 c.check_fmt(f, &s);
